@@ -138,6 +138,9 @@ def parallel_runs(chk, tracefile):
     r = run_tlc("TraceDrivers", "TraceDrivers", env={"TRACE_FILE": tf, "JAVA_TOOL_OPTIONS": "-XX:+UseParallelGC -Xmx8g"}, name="trace_repo_drivers", timeout=2400)
     chk.states += r.distinct
     chk.transitions += r.generated
+    if not r.ok and r.violated in common.INTERNAL_INVARIANTS:
+        chk.drift_note("a parallel run of the repository's tests violates %s of Drivers.tla (internal state)" % r.violated)
+        return 0
     if not r.ok:
         chk.violation("a parallel run of the repository's tests violates %s of Drivers.tla" % r.violated, {"kind": "repo_driver_trace"}, klass={"check": "trace_invariant"})
         return 0
@@ -188,7 +191,9 @@ def runtime_events(chk, tracefile):
     ok = r.ok and reached == len(tr) + 1
     chk.extra["repo_tests_runtime_events_matched"] = reached - 1
     chk.extra["repo_tests_runtime_trace_accepted"] = ok
-    if not r.ok:
+    if not r.ok and r.violated in common.INTERNAL_INVARIANTS:
+        chk.drift_note("the repository's tests, recorded with the hooks on, violate %s of Runtime.tla (internal state)" % r.violated)
+    elif not r.ok:
         chk.violation("the repository's tests, recorded with the hooks on, violate %s of Runtime.tla" % r.violated, {"kind": "repo_runtime_trace", "context": tr[max(0, reached - 8): reached + 1]}, klass={"check": "trace_invariant"})
     elif not ok:
         chk.drift_note("repository tests: runtime trace not explained at event %d: %s" % (reached, json.dumps(tr[max(0, reached - 5): reached + 1])))
